@@ -2646,13 +2646,13 @@ static iwrc _jbl_target_apply_patch(struct jbl_node *target, const struct jbl_pa
         if (cnt > 0) {
           return JBL_ERROR_PATCH_INVALID_ARRAY_INDEX;
         }
-        value->klidx = idx;
         if (child) {
-          if (op == JBP_SWAP) {
+          if (op == JBP_SWAP) { // Contents are exchanged, `value` stays where it is and keeps its own key/index
             _jbl_copy_node_data(ntmp, value);
             _jbl_copy_node_data(value, child);
             _jbl_copy_node_data(child, ntmp);
           } else {
+            value->klidx = idx;
             value->parent = parent;
             value->next = child;
             value->prev = child->prev;
